@@ -3,7 +3,7 @@
 From Coq Require Import Arith Lia.
 From WaxModel Require Import Base Token Regex Spec Encode Variance Fold Rule Parse Query Glob.
 From WaxProofs Require Import SpecFacts EncodeLang RuleFacts DepthFacts ExhaustFacts FuelFacts PruneFacts ParseTreeFacts BuiltFacts.
-From WaxProofs Require Import BuiltNonempty DepthTreeFacts DepthAltFacts DepthRepFacts.
+From WaxProofs Require Import BuiltNonempty DepthTreeFacts DepthAltFacts DepthRepFacts RuleAdjFacts ParseShape.
 Local Open Scope N_scope.
 
 Lemma build_inv : forall e t r, build e = BuildOk t r -> parse e = ParseOk t /\ check t = Ok None.
@@ -70,6 +70,20 @@ Proof.
   eapply (depth_rep_sound orbit orbit_nosep); try eassumption.
   - eapply built_nonempty_branches; exact Hb.
   - eapply parse_lits_nosep; exact Hp.
+Qed.
+
+(* every glob that builds and has no repetition, with nothing assumed about adjacency: the rule checker guarantees that no expansion
+   holds two adjacent boundaries (RuleAdjFacts / ParseShape) *)
+Theorem built_rep_free_depth_sound : forall e t r v p,
+  build e = BuildOk t r -> rep_free t = true ->
+  depth_variance t = Ok v -> depth_closed_variant t = false ->
+  Lang orbit t p -> canonical p = true -> 1 <= ncomp p ->
+  (forall x, Expands t x -> FlatMatch orbit true true x p -> starts_sep p = (match x with a :: _ => leaf_is_rooting a | [] => false end)) ->
+  in_variance (ncomp p) v.
+Proof.
+  intros e t r v p Hb Hrf Hv Hcv [x [Hx Hm]] Hcan Hn Hroot.
+  eapply built_alt_depth_sound; try eassumption; [|apply Hroot; assumption].
+  eapply built_no_adjacent_boundaries; eassumption.
 Qed.
 
 End BuiltDepth.
